@@ -160,6 +160,20 @@ func (w *wrapOp) Next(ctx context.Context) ([]model.StepVector, error) {
 		was := w.ended
 		w.ended = true
 		w.mu.Unlock()
+		if !was && ctx.Err() == nil {
+			// "no step skipped relative to its siblings": a stream that has delivered some steps
+			// ends, without an error and with a live context, only after the last step of its grid
+			w.mu.Lock()
+			pos := w.pos
+			w.mu.Unlock()
+			want := int64(1)
+			if w.step > 0 {
+				want = (w.end-w.start)/w.step + 1
+			}
+			if pos > 0 && pos < want {
+				w.c.add(w, "ended-early", fmt.Sprintf("signalled the end of its stream after %d of %d steps, without an error and with a live context", pos, want))
+			}
+		}
 		if !was && mode&2 != 0 && ctx.Err() == nil {
 			// probe: an ended stream must stay ended
 			w.c.mu.Lock()
